@@ -1,4 +1,5 @@
 (* C09 — failure contract of the Readers. *)
+From V Require Import Flate.Impl Flate.ImplLife Flate.ImplLifeWin Flate.ImplLifeSim Flate.ImplLifeThms.
 From V Require Import XFlate.Total.
 From V Require Import Bzip2.Common Bzip2.SpecR Bzip2.SpecW Bzip2.Cut.
 From V Require Import Base.Prelude Base.Prog Base.ProgThms Flate.Spec Flate.Thms XFlate.Reader XFlate.Thms Life.ReadLoop Flate.Safe Flate.Fuel Brotli.Spec Brotli.Safe Brotli.Fuel Bzip2.Common Bzip2.SpecR Bzip2.Safe.
@@ -107,3 +108,15 @@ Theorem xflate_reader_error_classes : forall data s1 ops,
   open_reader data = inr s1 -> Forall obs_ok (fst (rrun s1 ops)).
 Proof. exact reader_total. Qed.
 Print Assumptions xflate_reader_error_classes.
+
+(* flate.Reader at implementation level (Flate/ImplLife.v, per-call correspondence WFLLIFE): once a
+   Read has returned a non-nil error - from ANY state, any buffer size, io.EOF and the closed error
+   included - every later Read returns no byte and the same error and changes nothing at all
+   (offsets, source position); Close then reports nil for io.EOF / closed and the error otherwise *)
+Theorem flate_reader_error_is_sticky : forall st n bs e st',
+  fl_read st n = ((bs, Some e), st') ->
+  (forall ops, Forall is_read ops ->
+     fl_ops st' ops = (map (fun _ => lobs_of LkRead [] (Some e) st') ops, st')) /\
+  fl_close st' = (close_ret e, set_err st' (Some (closed_class e))).
+Proof. exact fl_error_sticky. Qed.
+Print Assumptions flate_reader_error_is_sticky.
